@@ -99,24 +99,77 @@ def r192(repo, ctx, index):
     fw = index.field_writes(key, include_mro=False)
     falses = sorted({q.split('.')[-1] for (_, q, st, _) in fw.get('_isSatisfied', []) if isinstance(st, ast.Assign) and U.is_const(st.value, False)})
     ctx.check(set(falses) <= {'__init__', 'reset'}, 'R19.2', SC, BASECLS, 0, f'the flag is cleared only by {falses}', f'the flag is cleared by {falses}', construct=f'writers of _isSatisfied=False: {falses}')
-    # interpolation formula
+    # interpolation formula: every arithmetic expression that can flow into _satisfiedTime is the linear interpolation
+    # between (time[n-1], poll(n-1)) and (time[n], poll(n)) evaluated at the target value
     import sympy as sp
-    st = [s for s in ast.walk(f) if isinstance(s, ast.Assign) and U.chain(s.targets[0]) == ('self', '_satisfiedTime') and isinstance(s.value, ast.BinOp)]
-    ok = False
-    if st:
-        from ..formula import ToSympy
-        tc, tp, vc, vp, val = sp.symbols('tc tp vc vp val')
-        env = {'currTime': tc, 'prevTime': tp, 'currVal': vc, 'prevVal': vp}
+    from ..formula import ToSympy
+    alldefs = {}
+    for s_ in ast.walk(f):
+        if isinstance(s_, ast.Assign) and len(s_.targets) == 1:
+            t_, v_ = s_.targets[0], s_.value
+            if isinstance(t_, ast.Name):
+                alldefs.setdefault(t_.id, []).append(v_)
+            elif isinstance(t_, ast.Tuple) and isinstance(v_, ast.Tuple) and len(t_.elts) == len(v_.elts):
+                for a_, b_ in zip(t_.elts, v_.elts):
+                    if isinstance(a_, ast.Name):
+                        alldefs.setdefault(a_.id, []).append(b_)
 
-        def atoms(e):
-            if U.chain(e) == ('self', '_value'):
-                return val
+    def flows(e, depth=0):
+        if isinstance(e, ast.Name) and e.id in alldefs and depth < 6:
+            out = []
+            for d in alldefs[e.id]:
+                out += flows(d, depth + 1)
+            return out
+        if isinstance(e, ast.IfExp):
+            return flows(e.body, depth + 1) + flows(e.orelse, depth + 1)
+        return [e]
+    st = [s for s in ast.walk(f) if isinstance(s, ast.Assign) and U.chain(s.targets[0]) == ('self', '_satisfiedTime')]
+    cands = [c for s_ in st for c in flows(s_.value)]
+    arith = [c for c in cands if isinstance(c, ast.BinOp)]
+    tc, tp, vc, vp, val = sp.symbols('tc tp vc vp val')
+    nsrc = 'model.pData.n'
+
+    nsym = sp.Symbol('n')
+
+    def idx_kind(e):
+        """'cur' for an index equal to n, 'prev' for n-1 (n = model.pData.n or a local bound to it), by exact arithmetic"""
+        def at(x):
+            if U.src(x).replace(' ', '') == nsrc:
+                return nsym
+            if isinstance(x, ast.Name) and len(alldefs.get(x.id, [])) == 1:
+                try:
+                    return ToSympy(atoms=at, env={}).tr(alldefs[x.id][0])
+                except AnalysisError:
+                    return None
             return None
         try:
-            got = ToSympy(atoms=atoms, env=env).tr(st[0].value)
-            ok = sp.simplify(got - (tp + (tc - tp) * (val - vp) / (vc - vp))) == 0
+            v = ToSympy(atoms=at, env={}).tr(e)
+        except AnalysisError:
+            return None
+        d = sp.simplify(v - nsym)
+        return 'cur' if d == 0 else 'prev' if d == -1 else None
+
+    def atoms(e):
+        if U.chain(e) == ('self', '_value'):
+            return val
+        if isinstance(e, ast.Name) and len(alldefs.get(e.id, [])) == 1:
+            return atoms(alldefs[e.id][0]) if not isinstance(alldefs[e.id][0], (ast.BinOp, ast.Constant)) else None
+        if isinstance(e, ast.Call) and U.call_name(e) == 'self._poll' and len(e.args) == 2:
+            k = idx_kind(e.args[1])
+            return {'cur': vc, 'prev': vp}.get(k)
+        if isinstance(e, ast.Subscript) and U.src(e.value).replace(' ', '') == 'model.pData.time':
+            k = idx_kind(e.slice)
+            return {'cur': tc, 'prev': tp}.get(k)
+        return None
+    ok = bool(arith)
+    for c in arith:
+        try:
+            got = ToSympy(atoms=atoms, env={}).tr(c)
+            if sp.simplify(got - (tp + (tc - tp) * (val - vp) / (vc - vp))) != 0:
+                ok = False
         except AnalysisError:
             ok = False
+    st = [s_ for s_ in st if any(isinstance(c, ast.BinOp) for c in flows(s_.value))] or st
     ctx.check(ok, 'R19.2', SC, f'{BASECLS}.testCondition', st[0] if st else f, 'crossing time = linear interpolation between the previous and the current step',
               'the reported crossing time is not the linear interpolation between the previous and the current step', construct=U.src(st[0]) if st else '')
 
@@ -227,23 +280,74 @@ def r194(repo, ctx, index):
     ctx.check('p=model.phaseIndex(self._phase)' in t and 'returndata[n,p]' in t, 'R19.4', SC, f'{BASECLS}._poll', p, 'per-phase conditions read column phaseIndex(phase) of their history', 'per-phase conditions do not read the column of the requested phase')
 
 
+def _is_conds(e):
+    c = U.chain(e)
+    return bool(c) and c[-1] == 'stopConds' and c in (('self', 'stopConds'), ('stopConds',))
+
+
+def _cond_loops(func):
+    """loops over self.stopConds (or the constructor argument stored into it): (loop, index name | None, item name | None)"""
+    out = []
+    for l in ast.walk(func):
+        if not isinstance(l, ast.For):
+            continue
+        it = l.iter
+        if isinstance(it, ast.Call) and U.call_name(it) == 'range' and it.args and isinstance(it.args[-1], ast.Call) and U.call_name(it.args[-1]) == 'len' \
+                and it.args[-1].args and _is_conds(it.args[-1].args[0]) and isinstance(l.target, ast.Name):
+            out.append((l, l.target.id, None))
+        elif _is_conds(it) and isinstance(l.target, ast.Name):
+            out.append((l, None, l.target.id))
+        elif isinstance(it, ast.Call) and U.call_name(it) == 'enumerate' and it.args and _is_conds(it.args[0]) \
+                and isinstance(l.target, ast.Tuple) and len(l.target.elts) == 2 and all(isinstance(e, ast.Name) for e in l.target.elts):
+            out.append((l, l.target.elts[0].id, l.target.elts[1].id))
+    return out
+
+
+def _is_item(e, idx, item):
+    if item and isinstance(e, ast.Name) and e.id == item:
+        return True
+    return idx is not None and isinstance(e, ast.Subscript) and _is_conds(e.value) and isinstance(e.slice, ast.Name) and e.slice.id == idx
+
+
 def r196(repo, ctx):
     f = repo.func(TTP, 'TTPCalculator._getStopTime')
-    lines = {}
-    for s in f.body:
-        if isinstance(s, ast.Expr) and isinstance(s.value, ast.Call):
-            lines[U.call_name(s.value)] = s.lineno
-    ok = 'self.model.reset' in lines and 'self.model.solve' in lines and 'self.model.setTemperature' in lines and lines['self.model.reset'] < lines['self.model.setTemperature'] < lines['self.model.solve']
+    sq = U.seq(f)
+    pos = {}
+    for c in U.calls(f):
+        nm = U.call_name(c)
+        if nm in ('self.model.reset', 'self.model.setTemperature', 'self.model.solve'):
+            pos.setdefault(nm, []).append(sq[id(c)])
+    ok = all(len(pos.get(k, [])) == 1 for k in ('self.model.reset', 'self.model.setTemperature', 'self.model.solve')) \
+        and pos['self.model.reset'][0] < pos['self.model.setTemperature'][0] < pos['self.model.solve'][0]
     ctx.check(ok, 'R19.6', TTP, 'TTPCalculator._getStopTime', f, 'the model is reset, the temperature set and then solved, in this order, for every temperature', 'the model is not reset before each temperature run')
     init = repo.func(TTP, 'TTPCalculator.__init__')
-    t = U.src(init).replace(' ', '')
-    ctx.check('self.model.clearStoppingConditions()' in t and "self.model.addStoppingCondition(self.stopConds[j],'and')" in t, 'R19.6', TTP, 'TTPCalculator.__init__', init, 'the calculator registers its conditions (and only those) as and-conditions', 'the calculator does not register its conditions as and-conditions')
+    clear = [c for c in U.calls(init) if U.call_name(c) == 'self.model.clearStoppingConditions']
+    reg = False
+    for l, idx, item in _cond_loops(init):
+        for c in U.calls(l):
+            if U.call_name(c) == 'self.model.addStoppingCondition' and c.args and _is_item(c.args[0], idx, item):
+                mode = c.args[1] if len(c.args) >= 2 else U.kwarg(c, 'mode')
+                if mode is not None and U.is_const(mode, 'and') and clear and U.seq(init)[id(clear[0])] < U.seq(init)[id(c)]:
+                    reg = True
+    ctx.check(bool(clear) and reg, 'R19.6', TTP, 'TTPCalculator.__init__', init, 'the calculator registers its conditions (and only those) as and-conditions', 'the calculator does not register its conditions as and-conditions')
     r = repo.func(BASE, 'PrecipitateBase.reset')
     loops = [l for l in ast.walk(r) if isinstance(l, ast.For) and U.chain(l.iter) == ('self', '_stoppingConditions')]
     ok = len(loops) == 1 and any(U.call_attr(c) == 'reset' for c in U.calls(loops[0]))
     ctx.check(ok, 'R19.6', BASE, 'PrecipitateBase.reset', r, 'resetting the model resets every registered condition', 'resetting the model does not reset the registered conditions')
-    t = U.src(f).replace(' ', '')
-    ctx.check('values[j]=self.stopConds[j].satisfiedTime()' in t, 'R19.6', TTP, 'TTPCalculator._getStopTime', f, 'the reported times are the crossing times of the conditions', 'the reported times are not the crossing times of the conditions')
+    # the reported vector: element j is the crossing time of condition j, and the vector is what is returned
+    rets = [x for x in ast.walk(f) if isinstance(x, ast.Return) and isinstance(x.value, ast.Name)]
+    good = False
+    for l, idx, item in _cond_loops(f):
+        if idx is None:
+            continue
+        for st in ast.walk(l):
+            if isinstance(st, ast.Assign) and isinstance(st.targets[0], ast.Subscript) and isinstance(st.targets[0].value, ast.Name) \
+                    and isinstance(st.targets[0].slice, ast.Name) and st.targets[0].slice.id == idx:
+                v = st.value
+                if isinstance(v, ast.Call) and isinstance(v.func, ast.Attribute) and v.func.attr == 'satisfiedTime' and not v.args and _is_item(v.func.value, idx, item) \
+                        and any(x.value.id == st.targets[0].value.id for x in rets):
+                    good = True
+    ctx.check(good, 'R19.6', TTP, 'TTPCalculator._getStopTime', f, 'the reported times are the crossing times of the conditions', 'the reported times are not the crossing times of the conditions')
 
 
 def check(repo, ctx, index, purity):
